@@ -390,10 +390,18 @@ impl Compiler {
                 {
                     // Make const size by transforming `(?<=a|bb)` to `(?<=a)|(?<=bb)`
                     let alternatives = &inner.children;
+                    // the choice between the alternatives is part of the (atomic) look-behind
+                    if inner.hard {
+                        self.b.add(Insn::BeginAtomic);
+                    }
                     self.compile_alt(alternatives.len(), |compiler, i| {
                         let alternative = &alternatives[i];
                         compiler.compile_positive_lookaround(alternative, la)
-                    })
+                    })?;
+                    if inner.hard {
+                        self.b.add(Insn::EndAtomic);
+                    }
+                    Ok(())
                 } else {
                     self.compile_positive_lookaround(inner, la)
                 }
@@ -422,9 +430,16 @@ impl Compiler {
 
     fn compile_positive_lookaround(&mut self, inner: &Info<'_>, la: LookAround) -> Result<()> {
         let save = self.b.newsave();
+        // a look-around is atomic: an easy body is one delegate, a hard one needs an explicit cut
+        if inner.hard {
+            self.b.add(Insn::BeginAtomic);
+        }
         self.b.add(Insn::Save(save));
         self.compile_lookaround_inner(inner, la)?;
         self.b.add(Insn::Restore(save));
+        if inner.hard {
+            self.b.add(Insn::EndAtomic);
+        }
         Ok(())
     }
 
